@@ -92,6 +92,23 @@ CLAIMS = {
         note=NOTE_BASE + " Ord is assumed a lawful total order.",
         technique="static analysis: summary-based abstract execution of all MIR paths (zone + array-segment predicates + symbolic order relations; representative-element quantified facts for the bulk form)",
     ),
+    "C19": dict(
+        category="other",
+        text="Partial, clause by clause, in exact arithmetic (float rounding and the 'one unit in the last place' allowance are not modelled). "
+             "Decided directly on the extracted formulas: lower_index/higher_index are floor/ceil of one quantity x = q(len-1) that is "
+             "non-decreasing in q, 0 at q=0 and len-1 at q=1, the fraction is fract of the same x (R27: term comparison, monotonicity typing, "
+             "CAS at the endpoints); every strategy is non-decreasing in the fraction at fixed neighbours (R27); for every strategy and "
+             "element-type family lower <= result <= higher and the result is exactly lower when both neighbours are equal (R26 linear-bound "
+             "range analysis) - hence Lower <= {Nearest, Midpoint, Linear} <= Higher, coincidence at integral x, min at q=0 and max at q=1; the "
+             "strategy table and the lookup (R19/R13); the neighbours are order statistics, a function of the lane's multiset only (R25/R22/R4: "
+             "bulk selection proved) - hence permutation invariance, and with bracketing and the monotone positions monotonicity in q also "
+             "across segments. Relabelling invariance of Lower/Higher/Nearest is witnessed at the type level (thorough tier: they and the "
+             "selection compile for an element type offering only Ord + Clone). Overflow of intermediates breaks the bracketing for signed and "
+             "float lanes: defect D8, known finding.",
+        design_ref="DESIGN.md §4 C19",
+        note=NOTE_BASE + " sympy at the endpoints; Ord assumed a lawful total order.",
+        technique="static analysis: monotonicity typing and linear-bound range analysis of extracted formula terms + summary-based abstract execution of the selection + type-level witness",
+    ),
     "C03": dict(
         category="proof",
         text="Static proof of an effect discipline sufficient for 'in-place routines only permute their lanes': over the call graph "
@@ -223,7 +240,6 @@ CLAIMS = {
 
 
 NOT_APPLICABLE = {
-    "C19": "static analysis has nothing further to decide here: monotonicity in q, bracketing by min/max, ordering between strategies, permutation- and relabelling-invariance relate the values of several runs; they are mathematical corollaries of C01 (interpolation layer: decided) and C02 (selection: decided) plus floating-point monotonicity arguments - there is no additional structure in the code whose shape decides them (DESIGN.md §4 C19)",
 }
 
 NOTES = ("Technique family: static analysis only. Every check re-extracts MIR facts from /repo's working tree with a rustc_private "
